@@ -25,6 +25,8 @@ def groups(n, seed):
         if i % 11 == 0:
             pk["validate_input"] = False
         rs = {"prob": family_spec(i, rng), "params": pk, "loglevel": ["WARNING", "INFO", "WARNING"][i % 3]}
+        if i % 6 == 2:
+            rs["prob"] = ("degenerate", int(rng.integers(0, 2 ** 31)), i // 6)
         if i % 6 == 5:
             # exactly singular first Newton matrix (curvature -lamb_init): the linear solver's own failure path
             from pygradflow.params import LinearSolverType
